@@ -719,11 +719,26 @@ func c20Deep(seed int64, n int, tier string, outDir string, rep *Report) error {
 		"  outcome_eqb item_eqb (clean_m (nilify x)) (omap nilify (clean_m x)).\n"
 	cwC := NewCaseWriter(outDir, "Cases_C20_deep_clean", hdrC, "item * item * item")
 	cwC.SetChunk(8, 1)
-	hdrF := "From AP.Model Require Import Prelude Vocab Pred IriEq Recip Flatten.\n" +
-		"Definition ok (c : fkind * item * outcome item) : bool := let '(fk, x, o) := c in\n" +
-		"  match x with IObj true k fs => match flatten_fields_m fk fs with Err => true | m => outcome_eqb item_eqb (omap (IObj true k) m) o end | _ => false end.\n"
-	cwF := NewCaseWriter(outDir, "Cases_C20_deep_flatten", hdrF, "fkind * item * outcome item")
+	// (builder b57) the twin goes along: what the real Flatten<X>Properties leaves of the twin must be the erasure
+	// (scrub) of what it leaves of x - the instance of C20_flatten_properties_commute, compared on the REAL outcomes -
+	// the model run on the twin must agree with the code too, and the hypothesis of the theorem (nodupf) must hold
+	hdrF := "From AP.Model Require Import Prelude Vocab Pred IriEq Recip Flatten NilEmbed NilFlatten.\n" +
+		"Definition fl_is (fk : fkind) (x : item) (o : outcome item) : bool :=\n" +
+		"  match x with IObj true k fs => match flatten_fields_m fk fs with Err => true | m => outcome_eqb item_eqb (omap (IObj true k) m) o end | _ => false end.\n" +
+		"Definition ok (c : fkind * item * outcome item * item * outcome item) : bool := let '(fk, x, o, twin, ot) := c in\n" +
+		"  fl_is fk x o && fl_is fk twin ot && nodupf x && item_eqb (scrub x) twin && outcome_eqb item_eqb (omap scrub o) ot.\n"
+	cwF := NewCaseWriter(outDir, "Cases_C20_deep_flatten", hdrF, "fkind * item * outcome item * item * outcome item")
 	cwF.SetChunk(8, 1)
+	// Flatten / FlattenProperties (item level) on a list holding the value twice among nil-like members, and on the
+	// value itself; the same comparisons (C20_flatten_commutes, C20_flatten_dispatch_commutes)
+	hdrFI := "From AP.Model Require Import Prelude Vocab Pred IriEq Recip Flatten NilEmbed NilFlatten.\n" +
+		"Definition m_is (m o : outcome item) : bool := match m with Err => true | _ => outcome_eqb item_eqb m o end.\n" +
+		"Definition ok (c : bool * item * outcome item * item * outcome item) : bool := let '(props, x, o, twin, ot) := c in\n" +
+		"  let f := if props then flatten_properties_m else flatten_m in\n" +
+		"  m_is (f x) o && m_is (f twin) ot && nodupf x && item_eqb (scrub x) twin && outcome_eqb item_eqb (omap scrub o) ot &&\n" +
+		"  outcome_eqb item_eqb (f (scrub x)) (omap scrub (f x)).\n"
+	cwFI := NewCaseWriter(outDir, "Cases_C20_deep_flatten_item", hdrFI, "bool * item * outcome item * item * outcome item")
+	cwFI.SetChunk(8, 1)
 	hdrR := "From AP.Model Require Import Prelude Vocab Pred IriEq Recip.\n" +
 		"Definition ok (c : item * outcome (item * item)) : bool := let '(x, o) := c in\n" +
 		"  outcome_eqb (pair_eqb item_eqb item_eqb) (recipients_m x) o.\n"
@@ -800,11 +815,71 @@ func c20Deep(seed int64, n int, tier string, outDir string, rep *Report) error {
 				if pan != "" {
 					viol("Flatten"+kind+"Properties", xs, "no panic", pan)
 				}
-				cwF.Add("("+fk+", "+xs+", "+c16Outcome(pan, CoqItem(v))+")", label)
+				w, _ := build(i, false)
+				panT := c16Apply(kind, w)
+				if panT != "" {
+					viol("Flatten"+kind+"Properties(twin)", ts, "no panic", panT)
+				}
+				// native, no model: flattening x and flattening its twin leave values with the same encoding
+				if pan == "" && panT == "" {
+					j1, _ := ap.MarshalJSON(v)
+					j2, _ := ap.MarshalJSON(w)
+					if !bytes.Equal(j1, j2) {
+						viol("Flatten"+kind+"Properties", xs, "same encoding as the flattened twin: "+string(j2), string(j1))
+					}
+				}
+				cwF.Add("("+fk+", "+xs+", "+c16Outcome(pan, CoqItem(v))+", "+ts+", "+c16Outcome(panT, CoqItem(w))+")", label)
 			}
-			v2, _ := build(i, true)
-			if pan := c20Recover(func() { _ = ap.FlattenProperties(v2) }); pan != "" {
-				viol("FlattenProperties", xs, "no panic", pan)
+			// item level: FlattenProperties(x), Flatten(x), Flatten(list with x twice among nil-like members)
+			nk := i % len(structTypes)
+			mk := func(typed bool, which int) ap.Item {
+				a, _ := build(i, typed)
+				switch which {
+				case 0, 1:
+					return a
+				}
+				b, _ := build(i, typed)
+				var n1, n2 ap.Item
+				if typed {
+					n1, n2 = TypedNil(nk), TypedNil((nk+5)%len(structTypes))
+				}
+				l := ap.ItemCollection{n1, a, n2, b}
+				if which == 3 {
+					return &l
+				}
+				return l
+			}
+			for which := 0; which < 4; which++ {
+				props := which == 0
+				run := func(it ap.Item) (out ap.Item, pan string) {
+					pan = c20Recover(func() {
+						if props {
+							out = ap.FlattenProperties(it)
+						} else {
+							out = ap.Flatten(it)
+						}
+					})
+					return
+				}
+				name := "Flatten"
+				if props {
+					name = "FlattenProperties"
+				}
+				xi, ti := mk(true, which), mk(false, which)
+				xis, tis := CoqItem(xi), CoqItem(ti)
+				o1, p1 := run(xi)
+				o2, p2 := run(ti)
+				if p1 != "" || p2 != "" {
+					viol(name, xis, "no panic", p1+" "+p2)
+				} else {
+					j1, _ := ap.MarshalJSON(o1)
+					j2, _ := ap.MarshalJSON(o2)
+					if !bytes.Equal(j1, j2) {
+						viol(name, xis, "same encoding as the flattened twin: "+string(j2), string(j1))
+					}
+				}
+				rep.Evaluations++
+				cwFI.Add("("+cbool(props)+", "+xis+", "+c16Outcome(p1, CoqItem(o1))+", "+tis+", "+c16Outcome(p2, CoqItem(o2))+")", fmt.Sprintf("%s form=%d", label, which))
 			}
 		}
 		// Recipients
@@ -845,7 +920,7 @@ func c20Deep(seed int64, n int, tier string, outDir string, rep *Report) error {
 		}
 	}
 	rep.Notes = append(rep.Notes, fmt.Sprintf("embedded-deep: %d values (nesting depth 3, thorough: 4) with nil-like items planted at every level, each with its untyped twin", done))
-	for _, w := range []*CaseWriter{cwE, cwC, cwF, cwR, cwQ} {
+	for _, w := range []*CaseWriter{cwE, cwC, cwF, cwFI, cwR, cwQ} {
 		if err := rep.AddCases(w); err != nil {
 			return err
 		}
